@@ -152,6 +152,8 @@ def check(repo, col, tier):
     _check_defaults(repo, col, spec, chan, syn)
     # ---- rename
     _check_rename(repo, col)
+    col.rule("R-C04-interface", "every channel implements update_states / compute_current / init_state with the interface's parameter order", 12)
+    kin.interface_agreement(repo, col, "R-C04-interface", "Channel", ("update_states", "compute_current", "init_state"), 12)
     col.info["programs"] = programs
     col.info["disagreements_checked"] = sum(1 for o in col.obs if o.rule == "R-C04-eq" and o.status != "DISCHARGED")
 
